@@ -30,7 +30,10 @@ Proof. exact model_passes_monitor. Qed.
    Exit: the iteration executes exactly the commands in front of Exit, then SearchStopped on
    every browse / hostname listener, `closed` on the channels of the commands behind Exit, on
    every channel the daemon held (monitors included), Shutdown + `closed` on Exit's channel;
-   goodbyes for the unregistered and for every still registered service; the daemon ends. *)
+   goodbyes for the unregistered and for every still registered service that had been
+   announced (bd59ecc; which services are announced is an environment input of the model,
+   `in_announced` / `mark`, because probing and the registry are not part of it); the daemon
+   ends. *)
 Theorem C14_cleanup_at_exit : forall d pre x post,
   no_exit pre ->
   drain0 d (pre ++ QExit x :: post) =
@@ -66,7 +69,7 @@ Theorem C14_no_command_after_exit_executes : forall d pre x post,
   (fst (exec_seq d pre),
    snd (exec_seq d pre) ++ cleanup_events (fst (exec_seq d pre)) ++ dropped post
      ++ drop_all (fst (exec_seq d pre)) ++ [(x, EShutdown); (x, EClosed)],
-   exec_seq_gb d pre ++ d_services (fst (exec_seq d pre)), true)
+   exec_seq_gb d pre ++ cleanup_goodbyes (fst (exec_seq d pre)), true)
   /\ Forall (fun p => snd p = EClosed) (dropped post).
 Proof. exact nothing_behind_exit_executes. Qed.
 
@@ -142,18 +145,18 @@ Proof. exact params_pinned_c14. Qed.
 (* Non-vacuity: a history with browse, cache-only browse, resolver, registration (one refused
    by the length limit), monitor, unregister, three announced instances, then shutdown in the
    middle of further calls, then calls after shutdown: well-formed, never stuck, passes the
-   checker; the daemon ends in step 2 with one goodbye, and status() afterwards reads
-   Shutdown. *)
+   checker; the daemon ends in step 2 with one goodbye (both services had been announced in
+   step 1, one was unregistered there), and status() afterwards reads Shutdown. *)
 Definition ex_ty : bytes := [95;120;46;95;116;99;112;46;108;111;99;97;108;46].               (* _x._tcp.local. *)
 Definition ex_ty2 : bytes := [95;121;46;95;117;100;112;46;108;111;99;97;108;46].              (* _y._udp.local. *)
 Definition ex_long : bytes := [95;97;98;99;100;101;102;103;104;105;106;107;108;109;110;111;112;46;95;116;99;112;46;108;111;99;97;108;46].
 Definition ex_host : bytes := [104;46;108;111;99;97;108;46].                                 (* h.local. *)
 Definition ex_hist : list stepin :=
   [ mkIn [] [CBrowse ex_ty false; CBrowse ex_ty2 true; CResolve ex_host; CMonitor;
-             CRegister ex_ty [105] ex_host; CRegister ex_ty [106] ex_host; CRegister ex_long [107] ex_host];
-    mkIn [(ex_ty, 3)] [CStatus; CUnregister ([106;46] ++ ex_ty); CMetrics];
-    mkIn [] [CStatus; CShutdown; CStatus; CBrowse ex_ty false; CMonitor; CShutdown];
-    mkIn [] [CStatus; CBrowse ex_ty false; CShutdown; CBrowse [120] false] ].
+             CRegister ex_ty [105] ex_host; CRegister ex_ty [106] ex_host; CRegister ex_long [107] ex_host] [];
+    mkIn [(ex_ty, 3)] [CStatus; CUnregister ([106;46] ++ ex_ty); CMetrics] [[105;46] ++ ex_ty; [106;46] ++ ex_ty];
+    mkIn [] [CStatus; CShutdown; CStatus; CBrowse ex_ty false; CMonitor; CShutdown] [];
+    mkIn [] [CStatus; CBrowse ex_ty false; CShutdown; CBrowse [120] false] [] ].
 Example C14_example :
   wf_hist ex_hist /\ never_stuck (run ex_hist) = true /\ chk_C14 ex_hist (run ex_hist) = true
   /\ map so_exited (run ex_hist) = [false; false; true; false]
